@@ -12,8 +12,9 @@ from ..astutil import unparse, dotted
 from ..callgraph import CallGraph
 from ..prov import Prov, DIRKINDS, coarse, is_cwd_expr, walk_fn
 from ..pathwalk import MUTATORS, show
-from ..hwalk import loop_paths_h, function_paths
-from ..immsites import find_all
+from ..hwalk import loop_paths_h, function_paths, normalise
+from ..symeval import SymEval, Undecided, UnpackFailed
+from ..immsites import find_all, contains
 
 LEVEL = 'other'
 BAD = {'RawToken', 'Literal'}
@@ -384,6 +385,203 @@ def judge_contribution(rep, where, cond, recs, parts, node, fallback_line, path=
     return 'plain'
 
 
+# (reader line as read, the file name it asks for): keyword, blanks, the operand - for include optionally quoted and followed by a
+# comment -, nothing else.  The name handed to the search is the bare operand.
+INCLUDE_LINES = [('include foo.asm', 'foo.asm'), ('include foo.asm  ', 'foo.asm'), ('include  sub/foo.asm', 'sub/foo.asm'), ('include foo.asm # note', 'foo.asm'),
+                 ('include foo.asm  # note', 'foo.asm'), ('include "foo.asm"', 'foo.asm'), ("include 'foo.asm'  ", 'foo.asm'), ('include "foo.asm"  # note', 'foo.asm'),
+                 ('INCLUDE foo.asm', 'foo.asm'),
+                 ('include_bytes data.bin', 'data.bin'), ('include_bytes data.bin  ', 'data.bin'), ('include_bytes  sub/data.bin', 'sub/data.bin')]
+
+
+def line_leaves(facts, v, out=None):
+    """Symbols of the current source line a value depends on (loop items, parameters, attributes of them)."""
+    out = [] if out is None else out
+    if not isinstance(v, tuple) or not v:
+        return out
+    if not isinstance(v[0], str):
+        for x in v:
+            line_leaves(facts, x, out)
+        return out
+    if v[0] == 'const':
+        return out
+    if v[0] == 'attr' and v[1][0] == 'name' and any(
+            isinstance(st, ast.Assign) and any(isinstance(t, ast.Name) and t.id == v[2] for t in st.targets)
+            for ci in facts.classes.values() for st in ci.node.body):
+        return out          # a class-level constant read through self / the class
+    if v[0] in ('item', 'var') or (v[0] == 'name' and v[1] not in facts.assign_nodes and v[1] not in facts.funcs and v[1] not in facts.classes
+                                   and v[1] not in ('re', 'os', 'str', 'None', 'True', 'False')) \
+            or (v[0] == 'sub' and v[2][0] in ('lv', 'item')) or (v[0] == 'attr' and v[1][0] in ('name', 'item', 'var') and v[1][1] not in ('os', 're')):
+        if v not in out:
+            out.append(v)
+        return out
+    if v[0] in ('havoc', 'lv'):
+        return out
+    for x in v[1:]:
+        if isinstance(x, tuple):
+            line_leaves(facts, x, out)
+    return out
+
+
+def located_path(value, path=None):
+    """The path value an include line hands on, opened up: ('join', dir, name) | ('memo', table, key) | None."""
+    v = strip_res(value)
+    # first existing candidate of a lazily built sequence: next(filter(os.path.exists, [join(d, name) for d in dirs]), None)
+    if v[0] == 'call' and v[1] == 'next' and v[2]:
+        return located_path(v[2][0], path)
+    if v[0] == 'call' and v[1] == 'filter' and len(v[2]) == 2:
+        return located_path(v[2][1], path)
+    if v[0] == 'comp' and len(v) > 2:
+        return located_path(v[2], path)
+    if v[0] == 'havoc' and path is not None:
+        # the variable of a search loop: an element of the iterated sequence
+        for ev in path.events:
+            if ev[0] == 'loop' and isinstance(ev[2], ast.For) and isinstance(ev[2].target, ast.Name) and ev[2].target.id == v[1] \
+                    and v[2] == 'loop@{}'.format(ev[2].lineno):
+                return located_path(ev[1], path)
+        return None
+    if v[0] == 'call' and v[1] == 'os.path.join' and len(v[2]) == 2 and not v[3]:
+        return ('join', v[2][0], v[2][1])
+    if v[0] == 'bin' and v[1] == '/':
+        return ('join', v[2], v[3])
+    if v[0] == 'sub':
+        return ('memo', v[1], v[2])
+    if v[0] == 'mcall' and v[2] == 'get' and v[3]:
+        return ('memo', v[1], v[3][0])
+    if v[0] == 'call' and v[1] in ('str', 'os.path.abspath', 'os.path.normpath', 'os.fspath') and len(v[2]) == 1:
+        return located_path(v[2][0], path)
+    return None
+
+
+def check_located(rep, facts, where, path, located, shared_with, node):
+    """R14.1.operand / R14.1.memo for the path value of one include / include_bytes line (see the callers)."""
+    loc = located_path(normalise(facts, located), path)
+    line = getattr(node, 'lineno', None)
+    if loc is None:
+        return 'unknown'
+    if loc[0] == 'memo':
+        table, key = normalise(facts, loc[1]), normalise(facts, loc[2])
+        shared = any(contains(x, table) for x in shared_with) or (table[0] == 'name' and table[1] in facts.assign_nodes)
+        # what the key depends on besides the text of the line (the loop item): directories, parameters ...
+        others = [x for x in find_all(key, lambda t: t[0] in ('havoc', 'lv', 'name', 'attr', 'call')) if not (
+            x[0] == 'call' and not x[1].startswith(('os.getcwd', 'os.path.dirname', 'copy.'))) and not (x[0] == 'name' and (x[1] in facts.assign_nodes or x[1] in ('re', 'os')))
+            and not (x[0] == 'attr' and x[1][0] == 'name' and x[1][1] in ('re', 'os'))]
+        if others:
+            rep.ok('R14.1.memo', '{}: located paths are remembered under a key that involves the search directories ({})'.format(where, show(key)[:60]))
+            return 'ok'
+        if shared and line_leaves(facts, key):
+            rep.fail(Finding('R14.1.memo', where, node, 'the located path is taken from the table {} under the key {}: the key does not involve the directories searched for '
+                             'this file, and the table is shared with the files it includes (and those that include it), so the same name written in two directories '
+                             'resolves to whichever file was found first'.format(show(table)[:40], show(key)[:60]), line=line), instance='memo ' + show(key)[:40])
+            return 'memo'
+        return 'unknown'
+    name = normalise(facts, loc[2])
+    leaves = line_leaves(facts, name)
+    if len(leaves) != 1:
+        return 'unknown'
+    leaf = leaves[0]
+    conds = [(normalise(facts, t), pol) for t, pol, _ in path.conds]
+    found_value = strip_res(normalise(facts, located))
+    about_search = lambda t: contains(t, found_value) or bool(find_all(t, lambda u: u[0] == 'call' and (u[1].startswith('os.path.') or u[1] in ('os.getcwd', 'os.stat'))))
+    # variables of loops over constant tables (`for keyword in DIRECTIVES`) take each of the table's elements
+    choices = {}
+    for h in find_all((name,) + tuple(t for t, _ in conds), lambda u: u[0] == 'havoc'):
+        if h in choices:
+            continue
+        for ev_ in path.events:
+            if ev_[0] == 'loop' and isinstance(ev_[2], ast.For) and isinstance(ev_[2].target, ast.Name) and ev_[2].target.id == h[1] \
+                    and h[2] == 'loop@{}'.format(ev_[2].lineno):
+                try:
+                    vals = list(SymEval(facts).ev(normalise(facts, ev_[1])))
+                except (Undecided, TypeError):
+                    vals = None
+                if vals is not None and len(vals) <= 8:
+                    choices[h] = vals
+    import itertools
+    combos = [dict(zip(choices, c)) for c in itertools.product(*choices.values())][:64] if choices else [{}]
+    n_ok = tried = refused = unclear = 0
+    for text, want in INCLUDE_LINES:
+        for combo in combos:
+            binding = dict(combo)
+            binding[leaf] = text
+            cls = where.split('.')[0]
+            ev = SymEval(facts, binding, {('name', 'self'): cls, ('name', 'cls'): cls} if cls in facts.classes else None)
+            ok, uncertain = True, None
+            tried += 1
+            for t, pol in conds:
+                if not contains(t, leaf) and not any(contains(t, h) for h in combo):
+                    if not about_search(t) and find_all(t, lambda u: u[0] in ('havoc', 'callv', 'opaque')):
+                        uncertain = t       # data-dependent dispatch the evaluation cannot follow
+                    continue
+                try:
+                    if bool(ev.ev(t)) != pol:
+                        ok = False
+                        break
+                except UnpackFailed:
+                    ok = False
+                    break
+                except Undecided:
+                    if not about_search(t):
+                        uncertain = t
+                    continue            # a condition about the filesystem / the search, not about the text of the line
+            if not ok:
+                refused += 1
+                continue
+            if uncertain is not None:
+                unclear += 1
+            try:
+                got = ev.ev(name)
+            except UnpackFailed:
+                refused += 1
+                continue                # this spelling is refused (the raising path)
+            except Undecided as e:
+                defer(rep, '{}: the file name taken from the line {!r} cannot be evaluated: {}'.format(where, text, e))
+                return 'unknown'
+            if got != want:
+                if uncertain is not None:
+                    defer(rep, '{}: for the line {!r} the name handed to the search would be {!r}, but whether this path is taken depends on `{}`, which is not understood'.format(
+                        where, text, got, show(uncertain)[:60]))
+                    return 'unknown'
+                rep.fail(Finding('R14.1.operand', where, node, 'for the line {!r} the include search is handed the name {!r} instead of {!r}: the name is the bare operand of the '
+                                 'directive (no blanks, quotes or comment text around it), otherwise an adjacent file is not found'.format(text, got, want), line=line),
+                         instance='operand of {!r}'.format(text))
+                return 'operand'
+            n_ok += 1
+    if n_ok:
+        rep.ok('R14.1.operand', '{}: the name handed to the search is the bare operand [{}] ({} sample lines)'.format(where, path.cond_text()[-40:], n_ok))
+        return 'ok'
+    if tried and refused == tried and not unclear:
+        return 'infeasible'      # no documented spelling of an include line takes this path (decided, not assumed)
+    return 'unknown'
+
+
+def include_operands(rep, facts, where, path, recs, node):
+    """The located paths used on one path through the per-line processing: the argument of the recursive read, the argument of
+    os.path.getsize (include_bytes)."""
+    values = [part for ev in path.events for part in ev[1:] if isinstance(part, tuple)]
+    found = []
+    for r in recs:
+        args = r[2] if r[0] == 'call' else r[3]
+        kwargs = r[3] if r[0] == 'call' else r[4]
+        if args:
+            found.append((args[0], list(args[1:]) + [v for _, v in kwargs]))
+    for v in values:
+        for g in find_all(v, lambda t: t[0] == 'call' and t[1] == 'os.path.getsize' and len(t[2]) == 1):
+            if not any(g[2][0] == f[0] for f in found):
+                found.append((g[2][0], [x for r in recs for x in (r[2] if r[0] == 'call' else r[3])] + ALL_REC_ARGS[0]))
+    out = []
+    for located, shared_with in found:
+        verdict = check_located(rep, facts, where, path, located, shared_with, node)
+        if verdict == 'unknown':
+            # never a silent pass: every located path must be followed back to the text of the line
+            defer(rep, '{}: the file name behind `{}` on the path [{}] could not be followed back to the text of the line: no verdict'.format(
+                where, show(located)[:60], path.cond_text()[-60:]))
+        out.append(verdict)
+    return out
+
+
+ALL_REC_ARGS = [[]]       # arguments of every recursive read seen in the reader (a table handed down is shared)
+
+
 def check_index_iteration(loop, paths):
     """A `while i < len(rows)` loop visits the rows in order, each once, iff i starts at 0, is advanced by exactly 1 on every path
     through the body, and rows are only read at the not yet advanced index.  Anything else is not understood (AnalysisError)."""
@@ -412,7 +610,10 @@ def check_index_iteration(loop, paths):
 def check_splice(rep, facts, cg, fn, reader='read_lines', is_method=False):
     """R14.3: the returned list is the in-order concatenation, over the source lines, of what each line contributes."""
     REC_NAME[0] = fn.name
+    parent_fn = None
     if any(isinstance(n, (ast.Yield, ast.YieldFrom)) for n in walk_fn(fn)):
+        from ..astutil import enclosing_function
+        parent_fn = enclosing_function(fn)
         fn = desugar_generator(fn)
     rec_calls_ = lambda values: rec_calls(values, REC_NAME[0])
     ret = [st for st in fn.body if isinstance(st, ast.Return) and st.value is not None]
@@ -422,12 +623,17 @@ def check_splice(rep, facts, cg, fn, reader='read_lines', is_method=False):
     result = value.id if isinstance(value, ast.Name) else None
     loops = [st for st in fn.body if isinstance(st, (ast.For, ast.While))]
     n_inc = 0
+    operand_verdicts = []
+    ALL_REC_ARGS[0] = []
     if result is not None and loops:
         # loop form: the list is grown inside the (first) top-level loop
-        loop, paths = loop_paths_h(facts, fn, opaque={fn.name}, self_class=reader.split('.')[0] if is_method else None)
+        loop, paths = loop_paths_h(facts, fn, opaque={fn.name}, self_class=reader.split('.')[0] if is_method else None, parent=parent_fn)
         if isinstance(loop, ast.While):
             check_index_iteration(loop, paths)
         is_result = lambda v: v in (('lv', result), ('name', result))
+        for p in paths:
+            for r in rec_calls_([part for ev in p.events for part in ev[1:]]):
+                ALL_REC_ARGS[0] += list(r[2] if r[0] == 'call' else r[3]) + [v for _, v in (r[3] if r[0] == 'call' else r[4])]
         for p in paths:
             if p.end == 'raise':
                 continue
@@ -452,6 +658,7 @@ def check_splice(rep, facts, cg, fn, reader='read_lines', is_method=False):
                         unknown_mut = e
             if unknown_mut is not None:
                 continue        # reported by R14.3.order below
+            operand_verdicts += include_operands(rep, facts, reader, p, recs, node or p.end_node or loop)
             if judge_contribution(rep, reader, p.cond_text(), recs, parts, node or p.end_node or loop, fn.lineno, path=p) == 'include':
                 n_inc += 1
         bad = [n for n in ast.walk(fn) if isinstance(n, ast.Call) and isinstance(n.func, ast.Attribute) and n.func.attr in ('insert', 'sort', 'reverse', 'pop', 'remove', 'clear')
@@ -482,9 +689,13 @@ def check_splice(rep, facts, cg, fn, reader='read_lines', is_method=False):
             if not rv:
                 defer(rep, '{}: a path returns nothing to flatten'.format(target))
                 continue
+            operand_verdicts += include_operands(rep, facts, target, p, recs, rv[-1][2])
             if judge_contribution(rep, target, p.cond_text(), recs, parts_of(rv[-1][1]), rv[-1][2], fn.lineno, path=p) == 'include':
                 n_inc += 1
     rep.analysed['include paths through the reader loop'] = n_inc
+    rep.analysed['include operands evaluated'] = sum(1 for v in operand_verdicts if v in ('ok', 'operand', 'memo'))
+    if not rep.analysed['include operands evaluated']:
+        defer(rep, '{}: the file name that an include line hands to the search could not be followed back to the text of the line: no verdict'.format(reader))
 
 
 def strip_res(v):
